@@ -42,9 +42,9 @@ fn result_sig(r: &StepResult) -> String {
 
 fn restart_alphabet(cfgs: &[Cfg], thorough: bool) -> Alphabet {
     let spec = if thorough {
-        AlphabetSpec { cfgs: &["K1", "K2", "K5"], clients: 2, addrs: &["192.0.2.9"], ticks: &[150, 301] }
+        AlphabetSpec { rfc4361_clients: false, cfgs: &["K1", "K2", "K5"], clients: 2, addrs: &["192.0.2.9"], ticks: &[150, 301] }
     } else {
-        AlphabetSpec { cfgs: &["K1", "K5"], clients: 2, addrs: &["192.0.2.9"], ticks: &[150, 301] }
+        AlphabetSpec { rfc4361_clients: false, cfgs: &["K1", "K5"], clients: 2, addrs: &["192.0.2.9"], ticks: &[150, 301] }
     };
     build_alphabet(cfgs, &spec)
 }
@@ -185,7 +185,7 @@ fn restart_part(rep: &mut Report, cfgs: &[Cfg], thorough: bool) -> (u64, u64) {
     // never invalidated, a counter) needs histories of this length before it disagrees with a
     // freshly opened server, and only a handful of operations to get there.
     let narrow = Alphabet {
-        ops: build_alphabet(cfgs, &AlphabetSpec { cfgs: &["K5"], clients: 2, addrs: &[], ticks: &[150, 301] })
+        ops: build_alphabet(cfgs, &AlphabetSpec { rfc4361_clients: false, cfgs: &["K5"], clients: 2, addrs: &[], ticks: &[150, 301] })
             .ops
             .into_iter()
             .filter(|o| match o {
